@@ -1,7 +1,7 @@
 (* C15 — the echo of a printable typed expression is a well-formed derivation tree of the
    documented grammar, hence (C10) it is read back as the tree it denotes. *)
 From Coq Require Import List NArith ZArith Bool Arith Lia.
-From NV Require Import Syntax.Token Syntax.Ast Syntax.StrEsc Syntax.Parser Syntax.Grammar
+From NV Require Import Syntax.Token Syntax.Ast Syntax.StmtAst Syntax.StrEsc Syntax.Parser Syntax.Grammar
      Syntax.StrEscProofs Syntax.ParserProofs Syntax.GrammarProofs Syntax.TypedPrinter.
 Import ListNotations.
 Local Open Scope nat_scope.
